@@ -3,6 +3,12 @@
 // edecimal: decimal strings in (parse) and out (operator<<); erational: numerator/denominator via
 // setnumerator()/setdenominator(), read back via top()/bottom()/sign.
 // Histories: chains of operations on an accumulator, each step printed with its operands and result.
+// build variant: -DTHROWING=1 (C19: *_THROW_ARITHMETIC_EXCEPTION for the three elastic types); --zero makes a quarter of the divisors zero
+#ifdef THROWING
+#define EINTEGER_THROW_ARITHMETIC_EXCEPTION 1
+#define EDECIMAL_THROW_ARITHMETIC_EXCEPTION 1
+#define ERATIONAL_THROW_ARITHMETIC_EXCEPTION 1
+#endif
 #include <universal/number/einteger/einteger.hpp>
 #include <universal/number/edecimal/edecimal.hpp>
 #include <universal/number/erational/erational.hpp>
@@ -10,6 +16,7 @@
 #include "drvkit.hpp"
 using namespace sw::universal;
 
+static bool g_zero = false;
 static std::string bytes_of(const std::string& s) {
 	std::string r;
 	for (size_t i = 0; i < s.size(); ++i) { char b[8]; snprintf(b, sizeof b, "%s%x", i ? "," : "", (unsigned char)s[i]); r += b; }
@@ -59,6 +66,7 @@ template <typename BT> struct EI {
 			T a = mk(sa, gen_limbs(g, maxl)), b = mk(sb, gen_limbs(g, (g.below(3) == 0) ? maxl : 1 + (unsigned)g.below(maxl)));
 			if (g.below(10) == 0) b = a;
 			if (g.below(12) == 0) { b = a; b.setsign(!a.sign()); }
+			if (g_zero && g.below(4) == 0) { b.clear(); }
 			for (int op : ops) {
 				std::string args = st(a) + "," + st(b);
 				std::string r = guarded([&]() -> std::string {
@@ -115,6 +123,7 @@ static void run_edecimal(uint64_t seed, uint64_t count) {
 		std::string sa = gen_dec(g, 40), sb = gen_dec(g, g.below(3) ? 12 : 40);
 		if (g.below(10) == 0) sb = sa;
 		if (g.below(12) == 0) sb = (sa[0] == '-') ? sa.substr(1) : "-" + sa;
+		if (g_zero && g.below(4) == 0) sb = "0";
 		edecimal a, b; a.parse(sa); b.parse(sb);
 		for (int op : ops) {
 			std::string r = guarded([&]() -> std::string {
@@ -159,6 +168,7 @@ int main(int argc, char** argv) {
 	Args A = parse_args(argc, argv);
 	install_signal_guards();
 	std::cerr.tie(nullptr);
+	for (auto& r : A.rest) if (r == "--zero") g_zero = true;
 	unsigned k = 0;
 	auto mine = [&]() { return (k++ % A.nshards) == A.shard; };
 	if (mine()) EI<uint8_t>::run(A.seed, A.count, 12);
